@@ -83,6 +83,10 @@ enum NetFault {
     Resize { i: usize, new_len: usize },
     /// chunk i gets id `id`
     Renumber { i: usize, id: u16 },
+    /// the boundary between chunk i and chunk i+1 moves by `d` bytes (d > 0: bytes move from
+    /// the end of chunk i to the front of chunk i+1): the concatenation is unchanged, only a
+    /// chunk size differs - a sender that cuts the message unevenly
+    ShiftBoundary { i: usize, d: i32 },
 }
 impl NetFault {
     fn kind(&self) -> &'static str {
@@ -95,6 +99,7 @@ impl NetFault {
             NetFault::ToggleEom(_) => "toggle_eom",
             NetFault::Resize { .. } => "resize",
             NetFault::Renumber { .. } => "renumber",
+            NetFault::ShiftBoundary { .. } => "shift_boundary",
         }
     }
 }
@@ -172,6 +177,30 @@ fn apply_fault(chunks: &mut Vec<ChunkSpec>, f: &NetFault) -> bool {
                 return false;
             }
             chunks[i].chunk_id = id;
+            true
+        }
+        NetFault::ShiftBoundary { i, d } => {
+            if n < 2 || i + 1 >= n || d == 0 {
+                return false;
+            }
+            if d > 0 {
+                let d = d as usize;
+                if chunks[i].payload.len() <= d || chunks[i + 1].payload.len() + d > 65535 {
+                    return false;
+                }
+                let cut = chunks[i].payload.len() - d;
+                let moved: Vec<u8> = chunks[i].payload.drain(cut..).collect();
+                let mut np = moved;
+                np.extend_from_slice(&chunks[i + 1].payload);
+                chunks[i + 1].payload = np;
+            } else {
+                let d = (-d) as usize;
+                if chunks[i + 1].payload.len() <= d || chunks[i].payload.len() + d > 65535 {
+                    return false;
+                }
+                let moved: Vec<u8> = chunks[i + 1].payload.drain(..d).collect();
+                chunks[i].payload.extend_from_slice(&moved);
+            }
             true
         }
     }
@@ -281,7 +310,7 @@ impl Check for C04Check {
         "fault_enumeration"
     }
     fn rule(&self) -> String {
-        "scenario = one PWB message (valid v2 payload with k channels x s samples, or a deliberately invalid payload) cut into chunks of a seeded size (1..=65535; sizes giving 1..=64 chunks), at most two network faults from {drop i, duplicate i (identical / differing payload), foreign board, foreign chip, toggle end-of-message on i, resize non-final i, renumber i}, and a set of delivery orders: ALL n! orders for n<=6, otherwise identity, reversal, every rotation, every adjacent transposition and seeded shuffles. Every (chunk set, order) is one execution of the real PwbPacket::try_from(Vec<Chunk>) and PwbV2Packet::try_from(Vec<Chunk>). Oracles: I1 same outcome class for every order and equal packets on success; I2 success => packet equals the real slice decoder on the id-ordered concatenation and equals what the model sent; I3 Ok/Err equals the reference reassembler of the statement. Non-trivial = at least two orders executed on at least two chunks; distinct = distinct event-log hashes (chunk bytes, orders, outcome classes).".into()
+        "scenario = one PWB message (valid v2 payload with k channels x s samples, or a deliberately invalid payload) cut into chunks of a seeded size (1..=65535; sizes giving 1..=64 chunks), at most two network faults from {drop i, duplicate i (identical / differing payload), foreign board, foreign chip, toggle end-of-message on i, resize non-final i, renumber i, shift the boundary between chunks i and i+1 by d bytes (concatenation unchanged)}, and a set of delivery orders: ALL n! orders for n<=6, otherwise identity, reversal, every rotation, every adjacent transposition and seeded shuffles. Every (chunk set, order) is one execution of the real PwbPacket::try_from(Vec<Chunk>) and PwbV2Packet::try_from(Vec<Chunk>). Oracles: I1 same outcome class for every order and equal packets on success; I2 success => packet equals the real slice decoder on the id-ordered concatenation and equals what the model sent; I3 Ok/Err equals the reference reassembler of the statement. Non-trivial = at least two orders executed on at least two chunks; distinct = distinct event-log hashes (chunk bytes, orders, outcome classes).".into()
     }
     fn assumptions(&self) -> Vec<String> {
         vec![
@@ -366,7 +395,8 @@ impl Check for C04Check {
         };
         for _ in 0..nf {
             let i = r.usize(0, n - 1);
-            faults.push(match r.below(9) {
+            faults.push(match r.below(11) {
+                9 | 10 => NetFault::ShiftBoundary { i: if n >= 2 { r.usize(0, n - 2) } else { 0 }, d: *r.pick(&[1i32, -1, 2, -3, 4, -4, 8, 16, -16, (size as i32 / 2).max(1), -((size as i32 / 2).max(1))]) },
                 0 => NetFault::Drop(i),
                 1 => NetFault::Dup { i, alter: false },
                 2 => NetFault::Dup { i, alter: true },
@@ -505,14 +535,17 @@ impl Check for C04Check {
             }
             let c = classes.swap_remove(0);
             log.str(&c.tag());
-            // I3: Ok/Err equals the reference
-            if c.is_ok() != expect_ok && viol.len() < 8 {
+            // I3: whenever the reference (the statement's list of failure conditions, and the direct
+            // decode) rejects, the real reassembly must reject. The converse is demanded only for the
+            // untouched chunk set of a valid message (checked below): the statement does not forbid
+            // an implementation that refuses more faulty sets than it lists.
+            if c.is_ok() && !expect_ok && viol.len() < 8 {
                 let why = match &reference {
                     Err(w) => format!("reference rejects: {w}"),
                     Ok(_) => format!("reference: direct decode of the id-ordered concatenation gives {}", direct.as_ref().map(|d| d.tag()).unwrap_or_default()),
                 };
                 viol.push(Violation {
-                    invariant: if c.is_ok() { "C04.I3-accepted-but-reference-rejects".into() } else { "C04.I3-rejected-but-reference-accepts".into() },
+                    invariant: "C04.I3-accepted-but-reference-rejects".into(),
                     signature: format!("ref:{sig_fault}:{}", reference.as_ref().err().copied().unwrap_or("ok")),
                     detail: format!("order {p:?} gives {}; {why}", c.tag()),
                     narrowed: narrowed(p, p),
